@@ -123,7 +123,7 @@ def queries(tier, prop='C19'):
             ents += ['q_trleft', 'q_trright', 'q_trleft_stride', 'q_trright_stride']
         for e in ents:
             big = cap * 4 + 40 if e == 'q_mda' else 48
-            q = dict(entry=e, cfg=cfg, solver=os.environ.get('C19_SOLVER', 'minisat'), unwind=(cap + 3 if e == 'q_mda' else 9), unwindset={'ll_memset.0': big, 'll_memcpy.0': big, 'll_memmove.0': big, 'll_memmove.1': big}, budget=120 if tier == 'quick' else 600, ub=ub, nofunc=ub)
+            q = dict(entry=e, cfg=cfg, solver=os.environ.get('C19_SOLVER', 'minisat'), unwind=(max(cap + 3, 9) if e == 'q_mda' else 9), unwindset={'ll_memset.0': big, 'll_memcpy.0': big, 'll_memmove.0': big, 'll_memmove.1': big}, budget=120 if tier == 'quick' else 600, ub=ub, nofunc=ub)
             # configurations that lie wholly inside an open known-finding region (HARNESS.md): only the confirm query uses them
             if 'C19_extents_ctor_all_values' in opn and e in ('q_ctor_all', 'q_md_ctor_all') and mixed:
                 q['confirm_only'] = True
